@@ -108,6 +108,11 @@ def gen(rng, idx=None, structs=None):
             on = {'not_first': i > 0, 'first_only': i == 0, 'all': True, 'last_only': i == len(blocks) - 1,
                   'random': rng.random() < 0.6}[plan]
             b.relaxed = {slot: rng.choice(['inline', 'where'])} if on else {}
+    if ((idx % 4 == 1) if idx is not None else (rng.random() < 0.25)) and len(set((b.self_ty, len(b.slots)) for b in blocks)) == 1:
+        # (only when every block has the same header: with a nested member or another number of
+        # header parameters the expansion does not compile, known finding F37)
+        for i, b in enumerate(blocks):
+            b.item_lt = "'i%d" % i
     c.blocks = blocks
     c.decl = decl
     # probes: instantiate
@@ -162,8 +167,20 @@ def first_type_arg(self_ty):
 
 def block_text(b):
     # `of` mentions a type parameter of the block in its signature (parameter order matters)
+    ilt = getattr(b, 'item_lt', None)
+    if ilt:
+        # an impl-level lifetime that only the items mention (legal: unconstrained lifetimes are),
+        # spelled differently by every block
+        g = b.generics()
+        g = ('<%s, %s' % (ilt, g[1:])) if g.startswith('<') else '<%s>' % ilt
+        text = block_text_with(b, g)
+        return text[:text.rindex('}')] + '    pub fn il(_x: &%s u8) -> u8 { %d }\n}\n' % (ilt, int(b.tag[1:]) + 1)
+    return block_text_with(b, b.generics())
+
+
+def block_text_with(b, generics):
     return 'impl%s %s%s {\n    pub const NAME: &\'static str = "%s";\n    const SECRET: u8 = %d;\n    pub fn f() -> &\'static str { "%s" }\n    pub fn of(_x: Option<&%s%s>) -> u8 { %d }\n    pub(crate) fn pc() -> u8 { %d }\n}\n' % (
-        b.generics(), b.fmt(b.self_ty), b.where(), b.tag, int(b.tag[1:]) + 1, b.tag, b.fmt(getattr(b, 'of_lifetime', '')), b.fmt(first_type_arg(b.self_ty)), int(b.tag[1:]) + 1, int(b.tag[1:]) + 1)
+        generics, b.fmt(b.self_ty), b.where(), b.tag, int(b.tag[1:]) + 1, b.tag, b.fmt(getattr(b, 'of_lifetime', '')), b.fmt(first_type_arg(b.self_ty)), int(b.tag[1:]) + 1, int(b.tag[1:]) + 1)
 
 
 def invocation(c, order=None):
@@ -215,12 +232,13 @@ def run(tier, seed, replay=None):
     ncmp2, mviol = pe.check_mainimpls([invocation(c) for c in cases])
     stats['main_impls_compared'] = ncmp2
     violations += mviol
-    return finish('C17', tier, seed, gate, cases, stats, nontrivial, violations, set(),
+    return finish('C17', tier, seed, gate, cases, stats, nontrivial, violations, set(KNOWN_LINES),
                   rule=RULE,
                   samples=[dict(invocation=invocation(c)[:500], probes=c.probes[:3]) for c in cases[:3]],
                   extra=dict(programs=stats['programs']))
 
 
+KNOWN_LINES = set()
 RULE = 'generated inherent-mode invocations over local generic types (type / lifetime+type+const / const-before-type / two type parameters / tuple argument), 1-2 families for different const arguments or a generic const parameter, random parameter spelling, declaration order and bound placement; per case: shadow-trait program, a positive program reading pub items from outside and the private item from inside the module, negative programs (item of a probe matching no block; private item from outside) that must not compile; non-trivial = distinct accepted invocation with an implemented probe'
 
 
@@ -233,6 +251,16 @@ def core(rng, n, cases=None):
     for f in sorted(os.listdir(cdir)) if os.path.isdir(cdir) else []:
         src = open(os.path.join(cdir, f)).read()
         r = rc.compile_run(src, run=False)
+        if f.startswith('known_'):
+            # witness of a recorded (not repaired) finding, known_<class>_*.rs: KNOWN-FINDING while
+            # it still fails to compile and known_findings.json lists the class, else as below
+            cls = f.split('_')[1].upper()
+            k = next((k for k in cm.load_known() if k['property'] == 'C17' and k['status'] == 'known' and k['class'].upper() == cls), None)
+            if r['ok']:
+                continue
+            if k and (not k.get('error_code') or any(k['error_code'] in e for e in r['errors'])):
+                KNOWN_LINES.add('KNOWN-FINDING: property=C17 %s: %s' % (k['class'], k['what']))
+                continue
         if not f.endswith('_must_not_compile.rs') and not r['ok']:
             corpus_violations.append(dict(kind='property', request='corpus/C17/' + f, program=src, errors=r['errors'][:4],
                                           oracle='a corpus program of a fixed inherent-mode finding no longer compiles: %s' % r['errors'][:2]))
